@@ -22,6 +22,7 @@ import (
 	nphash "sigs.k8s.io/karpenter/pkg/controllers/nodepool/hash"
 	npvalidation "sigs.k8s.io/karpenter/pkg/controllers/nodepool/validation"
 	"sigs.k8s.io/karpenter/pkg/controllers/provisioning"
+	provsched "sigs.k8s.io/karpenter/pkg/controllers/provisioning/scheduling"
 	"sigs.k8s.io/karpenter/pkg/scheduling"
 	"sigs.k8s.io/karpenter/pkg/state/nodepoolhealth"
 	"sigs.k8s.io/karpenter/pkg/test"
@@ -39,6 +40,10 @@ import (
 // disruption controller. Fresh claims must not be Drifted (also once the instance-type check is due, > 1 h later).
 // Then one NodePool is edited (hashed field / non-drifting field / requirements), the hash controller runs again, and
 // the drift verdicts are judged by the specification.
+// Second wave (`wave2`): the provisioner runs ONCE MORE after the edit — either after the hash controller has re-stamped
+// the NodePool or BEFORE it gets to the edited NodePool (the NodePool's annotation is then behind its template while
+// NewNodeClaimTemplate builds the NodeClaims) — the new NodeClaims are launched the same way, the hash controller catches
+// up, and the disruption controller looks at them: NodeClaims freshly created from the edited NodePool must not be Drifted.
 
 type PoolEdit struct {
 	Pool  string          `json:"pool"`
@@ -60,6 +65,9 @@ type SelfIn struct {
 	// the provider answers, for a label the NodeClaim itself already carries, with the instance type's FIRST value instead
 	// of the NodeClaim's (the fake provider of the repo does this; the NodeClaim's own labels must win)
 	Sloppy bool `json:"sloppy"`
+	// a second scheduling pass after the edit: "" = none, "after-hash" = once the hash controller has re-stamped the
+	// edited NodePool, "before-hash" = between the edit and the hash controller's run
+	Wave2 string `json:"wave2,omitempty"`
 }
 
 type LaunchObs struct {
@@ -89,7 +97,9 @@ type PoolObs struct {
 type SelfOut struct {
 	Pools    []PoolObs   `json:"pools"`
 	Launches []LaunchObs `json:"launches"`
-	Err      string      `json:"err,omitempty"`
+	// the second wave: `fresh` is the verdict of the disruption controller once the hash controller has caught up
+	Launches2 []LaunchObs `json:"launches2"`
+	Err       string      `json:"err,omitempty"`
 }
 
 type option struct {
@@ -239,7 +249,7 @@ func implSelf(raw json.RawMessage) (any, error) {
 	cp := &scripted{CloudProvider: w.CP, choice: map[string]option{}, sloppy: in.Sloppy}
 	hashCtl := nphash.NewController(c, cp)
 	validCtl := npvalidation.NewController(w.Clock, c, cp)
-	out := SelfOut{Pools: []PoolObs{}, Launches: []LaunchObs{}}
+	out := SelfOut{Pools: []PoolObs{}, Launches: []LaunchObs{}, Launches2: []LaunchObs{}}
 	for _, p := range in.Scn.Pools {
 		np := &v1.NodePool{}
 		if err := c.Get(ctx, types.NamespacedName{Name: p.Name}, np); err != nil {
@@ -275,58 +285,65 @@ func implSelf(raw json.RawMessage) (any, error) {
 		name string
 		opt  option
 	}
-	var launches []launch
 	uid := 0
-	// deterministic order of the written claims: by the pods they were opened for
-	order := make([]int, len(names))
-	for i := range order {
-		order[i] = i
-	}
-	key := func(i int) string {
-		ps := []string{}
-		for _, p := range res.NewNodeClaims[i].Pods {
-			ps = append(ps, p.Name)
+	prepare := func(res provsched.Results, names []string, prefix string, sink *[]LaunchObs) ([]launch, error) {
+		var launches []launch
+		// deterministic order of the written claims: by the pods they were opened for
+		order := make([]int, len(names))
+		for i := range order {
+			order[i] = i
 		}
-		sort.Strings(ps)
-		return strings.Join(ps, ",")
-	}
-	sort.Slice(order, func(a, b int) bool { return key(order[a]) < key(order[b]) })
-	for rank, i := range order {
-		if names[i] == "" {
-			continue
-		}
-		orig := &v1.NodeClaim{}
-		if err := c.Get(ctx, types.NamespacedName{Name: names[i]}, orig); err != nil {
-			return nil, err
-		}
-		opts := permitted(w.CP.InstanceTypes, orig)
-		if in.MaxOptions > 0 && len(opts) > in.MaxOptions {
-			// an evenly spread sample
-			sel := []option{}
-			for k := 0; k < in.MaxOptions; k++ {
-				sel = append(sel, opts[k*len(opts)/in.MaxOptions])
+		key := func(i int) string {
+			ps := []string{}
+			for _, p := range res.NewNodeClaims[i].Pods {
+				ps = append(ps, p.Name)
 			}
-			opts = sel
+			sort.Strings(ps)
+			return strings.Join(ps, ",")
 		}
-		if len(opts) == 0 {
-			out.Launches = append(out.Launches, LaunchObs{Claim: rank, Pool: orig.Labels[v1.NodePoolLabelKey], Err: "no-permitted-option"})
-		}
-		for j, o := range opts {
-			cpy := &v1.NodeClaim{ObjectMeta: metav1.ObjectMeta{Name: fmt.Sprintf("claim-%d-opt-%d", rank, j), Labels: orig.DeepCopy().Labels,
-				Annotations: orig.DeepCopy().Annotations, OwnerReferences: orig.OwnerReferences}, Spec: *orig.Spec.DeepCopy()}
-			uid++
-			cpy.UID = types.UID(fmt.Sprintf("claim-uid-%d", uid))
-			cpy.CreationTimestamp = metav1.NewTime(w.Clock.Now())
-			if err := c.Create(ctx, cpy); err != nil {
+		sort.Slice(order, func(a, b int) bool { return key(order[a]) < key(order[b]) })
+		for rank, i := range order {
+			if names[i] == "" {
+				continue
+			}
+			orig := &v1.NodeClaim{}
+			if err := c.Get(ctx, types.NamespacedName{Name: names[i]}, orig); err != nil {
 				return nil, err
 			}
-			cp.choice[cpy.Name] = o
-			launches = append(launches, launch{rank, cpy.Name, o})
+			opts := permitted(w.CP.InstanceTypes, orig)
+			if in.MaxOptions > 0 && len(opts) > in.MaxOptions {
+				// an evenly spread sample
+				sel := []option{}
+				for k := 0; k < in.MaxOptions; k++ {
+					sel = append(sel, opts[k*len(opts)/in.MaxOptions])
+				}
+				opts = sel
+			}
+			if len(opts) == 0 {
+				*sink = append(*sink, LaunchObs{Claim: rank, Pool: orig.Labels[v1.NodePoolLabelKey], Err: "no-permitted-option"})
+			}
+			for j, o := range opts {
+				cpy := &v1.NodeClaim{ObjectMeta: metav1.ObjectMeta{Name: fmt.Sprintf("%sclaim-%d-opt-%d", prefix, rank, j), Labels: orig.DeepCopy().Labels,
+					Annotations: orig.DeepCopy().Annotations, OwnerReferences: orig.OwnerReferences}, Spec: *orig.Spec.DeepCopy()}
+				uid++
+				cpy.UID = types.UID(fmt.Sprintf("claim-uid-%d", uid))
+				cpy.CreationTimestamp = metav1.NewTime(w.Clock.Now())
+				if err := c.Create(ctx, cpy); err != nil {
+					return nil, err
+				}
+				cp.choice[cpy.Name] = o
+				launches = append(launches, launch{rank, cpy.Name, o})
+			}
+			// the original is not launched: remove it so that it does not count against anything
+			if err := c.Delete(ctx, orig); err != nil {
+				return nil, err
+			}
 		}
-		// the original is not launched: remove it so that it does not count against anything
-		if err := c.Delete(ctx, orig); err != nil {
-			return nil, err
-		}
+		return launches, nil
+	}
+	launches, err := prepare(res, names, "", &out.Launches)
+	if err != nil {
+		return nil, err
 	}
 	life := lifecycle.NewController(w.Clock, c, cp, test.NewEventRecorder(), nodepoolhealth.NewState(), nil)
 	driftCtl := ncdisruption.NewController(w.Clock, c, cp)
@@ -335,12 +352,13 @@ func implSelf(raw json.RawMessage) (any, error) {
 		return nc, c.Get(ctx, types.NamespacedName{Name: name}, nc)
 	}
 	obs := map[string]*LaunchObs{}
-	for _, l := range launches {
+	// launchOne: the written requirements, the real lifecycle controller (launch), the labels / annotations it leaves
+	launchOne := func(l launch) error {
 		o := &LaunchObs{Claim: l.idx, Option: l.opt.String(), Labels: [][2]string{}, Reqs: []world.MinExpr{}}
 		obs[l.name] = o
 		nc, err := get(l.name)
 		if err != nil {
-			return nil, err
+			return err
 		}
 		for _, rq := range nc.Spec.Requirements {
 			if v1.WellKnownLabels.Has(rq.Key) {
@@ -358,48 +376,67 @@ func implSelf(raw json.RawMessage) (any, error) {
 		})
 		if _, err := life.Reconcile(ctx, nc); err != nil {
 			o.Err = "lifecycle-error"
-			continue
+			return nil
 		}
 		if nc, err = get(l.name); err != nil {
-			return nil, err
+			return err
 		}
 		o.Pool = nc.Labels[v1.NodePoolLabelKey]
 		o.Launched = nc.StatusConditions().Get(v1.ConditionTypeLaunched).IsTrue()
-		if _, err := driftCtl.Reconcile(ctx, nc); err != nil {
-			o.Err = "drift-error"
-			continue
-		}
-		if nc, err = get(l.name); err != nil {
-			return nil, err
-		}
 		for k, v := range nc.Labels {
 			o.Labels = append(o.Labels, [2]string{k, v})
 		}
 		sort.Slice(o.Labels, func(a, b int) bool { return o.Labels[a][0] < o.Labels[b][0] })
 		o.Hash, o.Version = getAnn(nc, v1.NodePoolHashAnnotationKey), getAnn(nc, v1.NodePoolHashVersionAnnotationKey)
-		o.Fresh = driftedOf(nc)
+		return nil
+	}
+	// driftOne: the real disruption controller on the launched claim; the verdict goes to *dst
+	driftOne := func(l launch, dst func(o *LaunchObs) **string) error {
+		o := obs[l.name]
+		if o.Err != "" {
+			return nil
+		}
+		nc, err := get(l.name)
+		if err != nil {
+			return err
+		}
+		if _, err := driftCtl.Reconcile(ctx, nc); err != nil {
+			o.Err = "drift-error"
+			return nil
+		}
+		if nc, err = get(l.name); err != nil {
+			return err
+		}
+		*dst(o) = driftedOf(nc)
+		return nil
+	}
+	for _, l := range launches {
+		if err := launchOne(l); err != nil {
+			return nil, err
+		}
+		if err := driftOne(l, func(o *LaunchObs) **string { return &o.Fresh }); err != nil {
+			return nil, err
+		}
 	}
 	// two hours later the instance-type check is due
 	w.Clock.Step(2 * time.Hour)
 	for _, l := range launches {
-		o := obs[l.name]
-		if o.Err != "" {
-			continue
-		}
-		nc, err := get(l.name)
-		if err != nil {
+		if err := driftOne(l, func(o *LaunchObs) **string { return &o.Later }); err != nil {
 			return nil, err
 		}
-		if _, err := driftCtl.Reconcile(ctx, nc); err != nil {
-			o.Err = "drift-error"
-			continue
-		}
-		if nc, err = get(l.name); err != nil {
-			return nil, err
-		}
-		o.Later = driftedOf(nc)
 	}
-	// the edit
+	// the edit; the hash controller re-stamps the NodePool right away unless the second wave is to run in between
+	runHash := func() error {
+		if in.Edit == nil {
+			return nil
+		}
+		np := &v1.NodePool{}
+		if err := c.Get(ctx, types.NamespacedName{Name: in.Edit.Pool}, np); err != nil {
+			return nil
+		}
+		_, err := hashCtl.Reconcile(ctx, np)
+		return err
+	}
 	if in.Edit != nil {
 		np := &v1.NodePool{}
 		if err := c.Get(ctx, types.NamespacedName{Name: in.Edit.Pool}, np); err == nil {
@@ -407,30 +444,47 @@ func implSelf(raw json.RawMessage) (any, error) {
 			if err := c.Update(ctx, np); err != nil {
 				return nil, err
 			}
-			if err := c.Get(ctx, types.NamespacedName{Name: in.Edit.Pool}, np); err != nil {
-				return nil, err
-			}
-			if _, err := hashCtl.Reconcile(ctx, np); err != nil {
+		}
+		if in.Wave2 != "before-hash" {
+			if err := runHash(); err != nil {
 				return nil, err
 			}
 		}
+	}
+	// the second wave: the provisioner schedules the (still pending) pods again, from the NodePools as they are stored now
+	var launches2 []launch
+	if in.Wave2 != "" {
+		res2, err := w.Schedule()
+		if err != nil {
+			out.Err = "schedule-error"
+			return out, nil
+		}
+		names2, _ := w.Prov.CreateNodeClaims(ctx, res2.NewNodeClaims, provisioning.WithReason("verif"))
+		if launches2, err = prepare(res2, names2, "w2-", &out.Launches2); err != nil {
+			return nil, err
+		}
+		for _, l := range launches2 {
+			if err := launchOne(l); err != nil {
+				return nil, err
+			}
+		}
+		if in.Wave2 == "before-hash" {
+			// the hash controller catches up with the edit
+			if err := runHash(); err != nil {
+				return nil, err
+			}
+		}
+		for _, l := range launches2 {
+			if err := driftOne(l, func(o *LaunchObs) **string { return &o.Fresh }); err != nil {
+				return nil, err
+			}
+		}
+	}
+	if in.Edit != nil {
 		for _, l := range launches {
-			o := obs[l.name]
-			if o.Err != "" {
-				continue
-			}
-			nc, err := get(l.name)
-			if err != nil {
+			if err := driftOne(l, func(o *LaunchObs) **string { return &o.AfterEdit }); err != nil {
 				return nil, err
 			}
-			if _, err := driftCtl.Reconcile(ctx, nc); err != nil {
-				o.Err = "drift-error"
-				continue
-			}
-			if nc, err = get(l.name); err != nil {
-				return nil, err
-			}
-			o.AfterEdit = driftedOf(nc)
 		}
 	}
 	for i := range out.Pools {
@@ -441,6 +495,9 @@ func implSelf(raw json.RawMessage) (any, error) {
 	}
 	for _, l := range launches {
 		out.Launches = append(out.Launches, *obs[l.name])
+	}
+	for _, l := range launches2 {
+		out.Launches2 = append(out.Launches2, *obs[l.name])
 	}
 	return out, nil
 }
@@ -636,6 +693,13 @@ func genSelf(r *rand.Rand, t core.Tier) any {
 		}
 		in.Edit = e
 	}
+	// the second wave: mostly in the window between the edit and the hash controller's run
+	switch x := r.Float64(); {
+	case in.Edit != nil && x < 0.4:
+		in.Wave2 = "before-hash"
+	case x < 0.55:
+		in.Wave2 = "after-hash"
+	}
 	return in
 }
 
@@ -653,6 +717,26 @@ func selfLabels(in *SelfIn, impl any) []string {
 		l = append(l, "edit:none")
 	}
 	seen := map[string]bool{}
+	if in.Wave2 != "" {
+		l = append(l, "wave2:"+in.Wave2)
+		ls2, _ := m["launches2"].([]any)
+		l = append(l, fmt.Sprintf("wave2-launches=%d", min(len(ls2)/4*4, 16)))
+		hashed := in.Edit != nil && (in.Edit.Kind == "label" || in.Edit.Kind == "annotation" || in.Edit.Kind == "taint" || in.Edit.Kind == "startupTaint" || in.Edit.Kind == "tgp" || in.Edit.Kind == "expireAfter")
+		for _, x := range ls2 {
+			lm, _ := x.(map[string]any)
+			if s, ok := lm["fresh"].(string); ok {
+				seen["wave2-fresh:"+s] = true
+			} else if b, _ := lm["launched"].(bool); b {
+				seen["wave2-fresh:not-drifted"] = true
+				if hashed && in.Wave2 == "before-hash" && lm["pool"] == in.Edit.Pool {
+					seen["claim-created-between-hashed-edit-and-hash-controller"] = true
+				}
+			}
+			if e, _ := lm["err"].(string); e != "" {
+				seen["wave2-err:"+e] = true
+			}
+		}
+	}
 	for _, x := range ls {
 		lm, _ := x.(map[string]any)
 		for _, k := range []string{"fresh", "later", "afterEdit"} {
@@ -695,7 +779,7 @@ func asPairs(v any) [][2]string {
 func selfOp() *core.Op {
 	return &core.Op{
 		Name: "c15.selfdrift",
-		Doc:  "end to end on the fake client: real hash controller -> real Provisioner.Schedule + CreateNodeClaims (NodeClaimTemplate.ToNodeClaim) -> every NodeClaim launched through the real lifecycle controller as each permitted (instance type, offering) -> real disruption controller (fresh, and 2 h later when the instance-type check is due) -> one NodePool edit (hashed field / non-drifting field / requirements) + hash controller -> disruption controller; drift verdicts judged by the specification and compared with the Lean drift model",
+		Doc:  "end to end on the fake client: real hash controller -> real Provisioner.Schedule + CreateNodeClaims (NodeClaimTemplate.ToNodeClaim) -> every NodeClaim launched through the real lifecycle controller as each permitted (instance type, offering) -> real disruption controller (fresh, and 2 h later when the instance-type check is due) -> one NodePool edit (hashed field / non-drifting field / requirements) + hash controller -> disruption controller; optionally a SECOND scheduling pass after the edit, after or BEFORE the hash controller re-stamps the edited NodePool (NodeClaims built while the NodePool's annotation is behind its template), launched the same way and judged once the hash controller has caught up; drift verdicts judged by the specification and compared with the Lean drift model",
 		N: func(t core.Tier) int {
 			if t == core.Thorough {
 				return 4000
@@ -759,6 +843,14 @@ func selfOp() *core.Op {
 			if in.Edit != nil {
 				c := in
 				c.Edit = nil
+				if c.Wave2 == "before-hash" {
+					c.Wave2 = "after-hash"
+				}
+				out = append(out, c)
+			}
+			if in.Wave2 != "" {
+				c := in
+				c.Wave2 = ""
 				out = append(out, c)
 			}
 			return out
